@@ -651,7 +651,7 @@ def gen_session(rng, big=False):
             kind = 'fwd' if rng.random() < 0.65 else 'bwd'
         if style in ('setter', 'mixed') and i > 0 and rng.random() < 0.45:
             ops.append({'op': 'setf', 'f': _spec(rng)})
-        ops.append({'op': kind, 'lam': lam, 'dtype': dt, 'salt': i})
+        ops.append({'op': kind, 'lam': lam, 'dtype': dt, 'salt': i, 'chain': bool(rng.random() < 0.3)})
     # always end with a double-precision forward at the first wavelength
     ops.append({'op': 'fwd', 'lam': lams[0], 'dtype': 'c128', 'salt': 99})
     return {'case': case, 'ops': ops, 'style': style}
@@ -708,6 +708,7 @@ def oracle_session(sess, observe=None):
     prev = 'fresh'
     log = []
     kcache = {}
+    kept = []
     for op in sess['ops']:
         if op['op'] == 'setf':
             cur = op['f']
@@ -741,6 +742,30 @@ def oracle_session(sess, observe=None):
                 bad.append(('reuse raises %s' % type(e).__name__, '%s raised %s: %s after %s' % (op['op'], type(e).__name__, e, prev)))
             prev = prev + '>' + op['op']
             continue
+        # results are values: earlier results unchanged, no memory shared with earlier results / input / internals
+        garr = np.asarray(out.electric_field)
+        bad += results_still_valid(kept, 'after %s (history %s)' % (op['op'], prev))
+        bad += result_is_independent(prop, pupil_grid, lam, garr, np.asarray(wf.electric_field), kept, prev)
+        kept.append((out, garr.copy(), '%s #%d' % (op['op'], len(kept))))
+        if op.get('chain') and not d4:
+            # feed the result straight back into the same object (forward -> backward, backward -> forward)
+            try:
+                if op['op'] == 'fwd':
+                    out2 = prop.backward(out)
+                    ref2 = adjoint_sum(pupil_grid, focal_grid, kept[-1][1], lam, f, kcache)
+                    got2 = np.asarray(out2.electric_field).reshape(-1, pupil_grid.size)
+                else:
+                    out2 = prop.forward(out)
+                    ref2 = direct_sum(pupil_grid, focal_grid, kept[-1][1], lam, f, kcache)
+                    got2 = np.asarray(out2.electric_field).reshape(-1, focal_grid.size)
+                e2 = float(np.abs(got2 - ref2).max())
+                if not e2 <= tol * 10 * max(1.0, float(np.abs(ref2).max())):
+                    bad.append(('reuse-chained after-' + op['op'], 'feeding the result of %s straight back into the same propagator differs from the direct sum by %.3g (history %s)' % (op['op'], e2, prev)))
+                bad += results_still_valid(kept, 'after chained call (history %s)' % prev)
+                bad += result_is_independent(prop, pupil_grid, lam, np.asarray(out2.electric_field), garr, kept, prev)
+                kept.append((out2, np.asarray(out2.electric_field).copy(), 'chained #%d' % len(kept)))
+            except Exception as e:
+                bad.append(('reuse raises %s' % type(e).__name__, 'chained call raised %s: %s after %s' % (type(e).__name__, e, prev)))
         scale = max(1.0, float(np.abs(ref).max()))
         err = float(np.abs(got - ref).max())
         hist = prev.split('>')
@@ -760,6 +785,30 @@ def oracle_session(sess, observe=None):
     bad += inputs_unchanged(snap, pupil_grid, focal_grid)
     if observe is not None:
         observe.update({'log': log, 'pupil_grid': pupil_grid, 'focal_grid': focal_grid})
+    return bad
+
+
+def results_still_valid(kept, when):
+    for wfres, snapshot, label in kept:
+        now = np.asarray(wfres.electric_field)
+        if now.shape != snapshot.shape or not np.array_equal(now, snapshot):
+            return [('result-overwritten', 'the wavefront returned by %s changed %s' % (label, when))]
+    return []
+
+
+def result_is_independent(prop, pupil_grid, lam, g, x, kept, prev):
+    bad = []
+    if any(np.shares_memory(g, np.asarray(k[0].electric_field)) for k in kept):
+        bad.append(('result-aliases-earlier-result', 'a returned field shares memory with a field returned earlier (history %s)' % prev))
+    if np.shares_memory(g, x):
+        bad.append(('result-aliases-input', 'the returned field shares memory with the input field (history %s)' % prev))
+    try:
+        ft = prop.get_instance_data(pupil_grid, None, lam).fourier_transform
+        internals = [v for v in vars(ft).values() if isinstance(v, np.ndarray)]
+    except Exception:
+        internals = []
+    if any(np.shares_memory(g, v) for v in internals):
+        bad.append(('result-aliases-internal-array', 'the returned field is a view of an internal array of the Fourier transform (history %s)' % prev))
     return bad
 
 
